@@ -65,6 +65,8 @@ pub fn exec(db: &dyn IndexDatabase, range: FileRange) -> Option<Vec<InlayHint>> 
             _ => {}
         }
     }
+    // a symbol overlapping the range may produce hints outside of it
+    hints.retain(|hint| range.range.contains_inclusive(hint.position));
     Some(hints)
 }
 
